@@ -72,9 +72,8 @@ func (s *Service) fetchExecutionConfig(ctx context.Context) {
 	}
 
 	// Start with our current execution configuration.
-	s.executionConfigMu.RLock()
-	executionConfig := s.executionConfig
-	s.executionConfigMu.RUnlock()
+	currentExecutionConfig := s.currentExecutionConfig()
+	executionConfig := currentExecutionConfig
 
 	if s.configURL == "" {
 		s.log.Trace().Msg("No config URL; using default configuration with fallback")
@@ -86,12 +85,12 @@ func (s *Service) fetchExecutionConfig(ctx context.Context) {
 			succeeded = false
 			s.log.Error().Str("config_url", s.configURL).Err(err).Msg("Failed to obtain execution configuration")
 			// Restore current execution configuration.
-			executionConfig = s.executionConfig
+			executionConfig = currentExecutionConfig
 		} else if executionConfig == nil {
 			succeeded = false
 			s.log.Error().Str("config_url", s.configURL).Msg("Obtained nil execution configuration")
 			// Restore current execution configuration.
-			executionConfig = s.executionConfig
+			executionConfig = currentExecutionConfig
 		}
 		monitorExecutionConfig(time.Since(started), succeeded)
 	}
@@ -101,6 +100,13 @@ func (s *Service) fetchExecutionConfig(ctx context.Context) {
 	s.executionConfigMu.Unlock()
 
 	s.log.Trace().Msg("Obtained configuration")
+}
+
+// currentExecutionConfig provides the current execution configuration.
+func (s *Service) currentExecutionConfig() blockrelay.ExecutionConfigurator {
+	s.executionConfigMu.RLock()
+	defer s.executionConfigMu.RUnlock()
+	return s.executionConfig
 }
 
 func (s *Service) obtainExecutionConfig(ctx context.Context,
